@@ -10,7 +10,11 @@ import _ "unsafe"
 //go:linkname verifMapSeed runtime.verifMapSeed
 var verifMapSeed uint64
 
+//go:linkname verifSelectSeq runtime.verifSelectSeq
+var verifSelectSeq uint64
+
 func setMapSeed(s uint64) {
+	verifSelectSeq = 0
 	if s == 0 {
 		s = 1
 	}
